@@ -53,7 +53,7 @@ CHECKS = {
         level="exploration",
         technique="runtime monitoring: stack automaton over the global resume/pause log + reads vs. reference override stack + post-run restore check",
         text="Programs with nested/concurrent overrides of the same scoped values and attributes in many pending tasks: every read equals the reference's dynamic override stack, the global activation sequence is well parenthesised, and all values are restored after value or exception outcomes, under all flush orders and both builds.",
-        note=TRUST + " No shared tasks (no unique sequential answer under them).",
+        note=TRUST + " Reads are not placed under tasks awaited by several parents (no unique sequential answer there).",
         design="4 C07",
     ),
     "C08": dict(
